@@ -109,7 +109,8 @@ func Gen(variant string) func(t *rapid.T) Plan {
 		}
 
 		if rapid.IntRange(0, rate).Draw(t, "race-template") == 0 {
-			p.Res[0] = InitRes{Exists: true, Phase: rapid.SampledFrom([]int{0, 0, 1}).Draw(t, "tphase"), Fins: rapid.SliceOfNDistinct(rapid.IntRange(0, 2), 1, 2, rapid.ID[int]).Draw(t, "tfins")}
+			p.Res[0] = InitRes{Exists: true, Phase: rapid.SampledFrom([]int{0, 0, 1}).Draw(t, "tphase"), Fins: rapid.SliceOfNDistinct(rapid.IntRange(0, 2), 1, 2, rapid.ID[int]).Draw(t, "tfins"),
+				Owner: rapid.IntRange(0, 1).Draw(t, "towner")}
 			blocked := Actor{K: rapid.SampledFrom([]string{"tad", "tad", "watchfor", "ctx"}).Draw(t, "tblocked"), Res: 0, Owner: 3}
 
 			if blocked.K == "watchfor" {
@@ -546,6 +547,22 @@ func runBubble(p Plan) (v hk.Verdict) {
 
 				if !found {
 					v.Failf("(iii) TeardownAndDestroy by %s returned nil but %s was never destroyed during the call (state now: %s)", as.name, as.key, final[as.key])
+				}
+			}
+
+			// (iv') the owner's call is never refused for ownership: its Teardown and its Destroy act as the owner named in
+			// the call (unless another party re-created the resource under another owner meanwhile)
+			if as.done && as.err != nil && state.IsOwnerConflictError(as.err) && as.a.Owner == 3 {
+				recreated := false
+
+				for _, other := range p.Actors {
+					if other.K == "create" && other.Res == as.a.Res {
+						recreated = true
+					}
+				}
+
+				if !recreated {
+					v.Failf("(iv') TeardownAndDestroy by %s, acting as the owner of %s, failed with an owner conflict: %v (state now: %s)", as.name, as.key, as.err, final[as.key])
 				}
 			}
 
